@@ -446,8 +446,8 @@ def r4(ctx: Ctx) -> None:
         return ("s", r, k_num(i))
     for rel, q in [(PARSE_DIE, "parse_die_rectangle"), (GEOM, "parse_yaml_rectangle")]:
         f = ctx.func(rel, q)
-        c = canon_function(f, ctx.model)
-        # parse_yaml_rectangle re-binds r = tuple(r): the parameter stays ('p',0)
+        from .common import unversion
+        c = unversion(canon_function(f, ctx.model), 0)      # parse_yaml_rectangle first coerces r = tuple(r)
         pt = ("c", ("g", "Point"), (idx(0), idx(1)), ())
         sh = ("c", ("g", "Shape"), (idx(2), idx(3)), ())
         ctx.site(f.where, "centre = (r[0], r[1]); shape = (r[2], r[3]); tag = r[4]")
